@@ -116,6 +116,16 @@ class Engine:
         self.repo = repo
         self.reg = reg
         self.prop = prop
+        from . import values as _values
+
+        def _lca(a, b):
+            if a in repo.classes and b in repo.classes:
+                mb = set(repo.mro(b))
+                for c_ in repo.mro(a):
+                    if c_ in mb and c_ != "object":
+                        return c_
+            return None
+        _values.CLASS_LCA = _lca
         self.obls: List[Obligation] = []
         self.axioms: List[Any] = []            # global background axioms (used by every obligation)
         self.trusted: List[str] = []
@@ -643,7 +653,12 @@ class Engine:
                     gty = STR
                 if gty is None:
                     raise Unsupported(f"module global {name} is not a literal and has no declared type")
-                self.globals_sym[key] = SV(gty, z3.Const(f"G_{name}", flat_sorts(gty)[0]), tag=("global", name))
+                if gty.kind in ("seq", "dict", "tuple"):
+                    gv = fresh_sv(gty, f"G_{name}", optional=False)
+                    gv.tag = ("global", name)
+                    self.globals_sym[key] = gv
+                else:
+                    self.globals_sym[key] = SV(gty, z3.Const(f"G_{name}", flat_sorts(gty)[0]), tag=("global", name))
             return self.globals_sym[key]
         tgt = self.repo.imports.get(mod, {}).get(name) or getattr(self, "local_imports", {}).get(name)
         q = tgt if tgt else f"{mod}.{name}"
@@ -653,10 +668,18 @@ class Engine:
             return SV(Ty("func"), None, tag=("class", name))
         if name in BUILTIN_NAMES:
             return SV(Ty("func"), None, tag=("builtin", name))
+        if name in self.global_types():
+            # an imported module global with a declared type (contents unknown)
+            key = f"G.{name}"
+            if key not in self.globals_sym:
+                gv = fresh_sv(self.global_types()[name], f"G_{name}", optional=False)
+                gv.tag = ("global", name)
+                self.globals_sym[key] = gv
+            return self.globals_sym[key]
         raise Unsupported(f"name {name}")
 
     def global_types(self) -> Dict[str, Ty]:
-        return getattr(self, "_global_types", {"_highest_valid_year": INT})
+        return getattr(self, "_global_types", {"_highest_valid_year": INT, "joke_cite": SEQ(OBJ("CitationBase"))})
 
     def literal(self, node: ast.AST) -> Optional[SV]:
         try:
@@ -1267,6 +1290,20 @@ class Engine:
         gargs = (self.contract.ghost_args.get(short, {}) if self.contract is not None and not self.spec_mode else {})
         for gname, gexpr in gargs.items():
             bound["ghost." + gname] = self.eval_spec_value(gexpr, pre, {}, self.contract)
+        # ghost variables of the callee the caller does not supply: an arbitrary value for the preconditions (the callee was verified for
+        # every ghost input satisfying them), and -- for ghost variables the callee's ghost code assigns -- an unknown (existential) final value
+        ghost_out = set()
+        for gc_ in self.reg.ghost.get(qname, []):
+            for gn_ in ast.walk(ast.parse(gc_.code)):
+                if isinstance(gn_, ast.Assign):
+                    for t_ in gn_.targets:
+                        if isinstance(t_, ast.Attribute) and isinstance(t_.value, ast.Name) and t_.value.id == "ghost":
+                            ghost_out.add(t_.attr)
+        for gname, gty in c.ghost.items():
+            if "ghost." + gname not in bound and "ghost." + gname not in st.store:      # (a same-named ghost variable of the caller is passed on implicitly)
+                gv = fresh_sv(parse_type(gty), f"{short}_ghost_{gname}", optional=False)
+                self.wf(st, gv)
+                bound["ghost." + gname] = gv
         # preconditions
         for name, expr in c.requires.items():
             g = self.eval_spec(expr, pre, bound, None, None, c)
@@ -1292,6 +1329,11 @@ class Engine:
             self.wf(st, res)
             if rty.kind == "obj":
                 self.assume_alive(st, res)
+        for gname, gty in c.ghost.items():
+            if gname in ghost_out and gname not in gargs and "ghost." + gname not in st.store:
+                gv = fresh_sv(parse_type(gty), f"{short}_ghostout_{gname}", optional=False)
+                self.wf(st, gv)
+                bound["ghost." + gname] = gv
         for name, expr in c.ensures.items():
             g = self.eval_spec(expr, st, bound, res, pre, c)
             st.assume(Implies(And(*self.guards), g))
